@@ -113,7 +113,9 @@ def main(tier, replay=None, selftest=False):
         p["text"] = text
         for oi, o in enumerate(optsets):
             jid = "%d|%d" % (pi, oi)
-            jobs.append({"id": jid, "schema_path": sp, "query": text, "options": opts_of(o), "want_tokens": True,
+            # the wire-RELEVANT option skip_serializing_none is part of the base for every other program (the same
+            # for the default and for every option set it is compared with)
+            jobs.append({"id": jid, "schema_path": sp, "query": text, "options": dict(opts_of(o), skip_serializing_none=(pi % 2 == 1)), "want_tokens": True,
                          "want_inventory": bool(o["extern_enums"])})
             meta[jid] = (pi, oi)
     results, _ = vlib.gqlv("gen", jobs, timeout=2400)
@@ -202,7 +204,7 @@ def main(tier, replay=None, selftest=False):
     ck.notes["programs"] = len(progs)
     ck.assumptions += ["an externally defined enum is supplied by the consumer with the open-world wire behaviour of Enums.tla",
                        "observation only through <Op as GraphQLQuery>::{ResponseData, Variables} and JSON, never through Rust identifiers"]
-    return ck.finish(exhaustive=False, rule="%d programs (covering sample) x %d option sets of the 192-element wire-neutral lattice "
+    return ck.finish(exhaustive=False, rule="%d programs (covering sample) x %d option sets of the 576-element wire-neutral lattice, with and without skip_serializing_none as the base "
                                             "(the default, every single change, seeded combinations) x <=30 response vectors + 5 variable assignments" % (len(progs), len(optsets)))
 
 
